@@ -203,7 +203,7 @@ point masses `E₁/2` at `l`, `E₂/2` at `u` (`E₁ = e^{(l-v)/b}`, `E₂ = e^{
 Given the evaluations of the four integrals of `y^j · density` over `[l, v]` and `[v, u]` (hypotheses `hI₁ hI₂ hJ₁ hJ₂`:
 the elementary antiderivatives `(y ∓ b)e^{±(y-v)/b}/2`, `(y² ∓ 2by + 2b²)e^{±(y-v)/b}/2`), the mean minus `v` is the
 coded bias and the second moment minus the squared mean is the coded variance. -/
-theorem truncated_moments_partial (b l u v I1 I2 J1 J2 : ℝ)
+theorem truncated_moments_partial (b l u v I1 I2 J1 J2 : ℝ) (hb : b ≠ 0)
     (hI1 : I1 = (v - b) / 2 - (l - b) * Real.exp ((l - v) / b) / 2)
     (hI2 : I2 = (v + b) / 2 - (u + b) * Real.exp ((v - u) / b) / 2)
     (hJ1 : J1 = (v ^ 2 - 2 * b * v + 2 * b ^ 2) / 2 - (l ^ 2 - 2 * b * l + 2 * b ^ 2) * Real.exp ((l - v) / b) / 2)
@@ -215,14 +215,14 @@ theorem truncated_moments_partial (b l u v I1 I2 J1 J2 : ℝ)
   have hbias : mean - v = truncBiasOf b l u v := by
     show l * (Real.exp ((l - v) / b) / 2) + I1 + I2 + u * (Real.exp ((v - u) / b) / 2) - v = _
     unfold truncBiasOf
-    simp only [transc_exp]
+    simp only [feq_real, hb, decide_false, Bool.false_eq_true, if_false, transc_exp]
     rw [hI1, hI2]; ring
   refine ⟨hbias, ?_⟩
   have hm : mean = truncBiasOf b l u v + v := by linarith
   rw [hm]
   show l ^ 2 * (Real.exp ((l - v) / b) / 2) + J1 + J2 + u ^ 2 * (Real.exp ((v - u) / b) / 2) - _ = _
-  unfold truncVarianceOf
-  simp only [sq_real, transc_exp]
+  unfold truncVarianceOf truncBiasOf
+  simp only [feq_real, hb, decide_false, Bool.false_eq_true, if_false, sq_real, transc_exp]
   rw [hJ1, hJ2]; ring
 
 /-- the first of those integral evaluations, discharged by the fundamental theorem of calculus (the other three are
@@ -251,7 +251,7 @@ theorem truncated_integral_I1 (b l v : ℝ) (hb : 0 < b) :
 /-- **bounded-domain Laplace, partial** (value inside a finite domain): the law is the Laplace density restricted to
 `[l, u]` and divided by `C = 1 - E₁/2 - E₂/2`; with the same four integral evaluations the mean minus `v` is the coded
 bias and the second moment minus the squared mean the coded variance — for whatever scale `s` the calibration returned -/
-theorem bounded_domain_moments_partial (s l u v I1 I2 J1 J2 : ℝ)
+theorem bounded_domain_moments_partial (s l u v I1 I2 J1 J2 : ℝ) (hs : s ≠ 0)
     (hC : 1 - Real.exp ((l - v) / s) / 2 - Real.exp ((v - u) / s) / 2 ≠ 0)
     (hI1 : I1 = (v - s) / 2 - (l - s) * Real.exp ((l - v) / s) / 2)
     (hI2 : I2 = (v + s) / 2 - (u + s) * Real.exp ((v - u) / s) / 2)
@@ -265,7 +265,7 @@ theorem bounded_domain_moments_partial (s l u v I1 I2 J1 J2 : ℝ)
   have hbias : mean - v = bdBiasOf s l u v := by
     show (I1 + I2) / (1 - Real.exp ((l - v) / s) / 2 - Real.exp ((v - u) / s) / 2) - v = _
     unfold bdBiasOf
-    simp only [transc_exp]
+    simp only [feq_real, hs, decide_false, Bool.false_eq_true, if_false, transc_exp]
     rw [hI1, hI2]
     generalize Real.exp ((l - v) / s) = A at *
     generalize Real.exp ((v - u) / s) = B at *
@@ -276,8 +276,8 @@ theorem bounded_domain_moments_partial (s l u v I1 I2 J1 J2 : ℝ)
   have hm : mean = bdBiasOf s l u v + v := by linarith
   rw [hm]
   show (J1 + J2) / (1 - Real.exp ((l - v) / s) / 2 - Real.exp ((v - u) / s) / 2) - _ = _
-  unfold bdVarianceOf
-  simp only [sq_real, transc_exp]
+  unfold bdVarianceOf bdBiasOf
+  simp only [feq_real, hs, decide_false, Bool.false_eq_true, if_false, sq_real, transc_exp]
   have e1 : Real.exp (-(v - l) / s) = Real.exp ((l - v) / s) := by congr 1; ring
   have e2 : Real.exp (-(u - v) / s) = Real.exp ((v - u) / s) := by congr 1; ring
   rw [e1, e2, hJ1, hJ2]
